@@ -105,7 +105,7 @@ func TestVerifC02Gating(t *testing.T) {
 		unreadable := true
 		for step := 0; step < nsteps; step++ {
 			if step > 0 {
-				now = now.Add(time.Duration(rapid.IntRange(0, 12).Draw(t, "advanceDays"))*c02Day + time.Duration(rapid.IntRange(0, 3600).Draw(t, "advanceSec"))*time.Second)
+				now = now.Add(time.Duration(rapid.IntRange(0, 12).Draw(t, "advanceDays"))*c02Day + time.Duration(rapid.OneOf(rapid.IntRange(0, 3600), rapid.IntRange(0, 86399)).Draw(t, "advanceSec"))*time.Second)
 			}
 			if step == 0 || rapid.Bool().Draw(t, "changeMode") {
 				modeContent, mode, asof, unreadable = c02ModeContent(t, now)
@@ -155,8 +155,18 @@ func TestVerifC02Gating(t *testing.T) {
 						end = weeks[open[rapid.IntRange(0, len(open)-1).Draw(t, "whichWeek")]].end
 					}
 				}
-				if w := weeks[end.Format("2006-01-02")]; w != nil && w.built {
-					continue // the week already has a report; adding files to it is C07's subject
+				if rapid.IntRange(0, 5).Draw(t, "endRecordedEastOfUTC") == 0 {
+					// a file that records its span with an offset east of UTC: its week is named by the recorded date,
+					// which can be tomorrow's UTC date although the end instant has passed
+					z := time.FixedZone("", rapid.SampledFrom([]int{9, 14, 5}).Draw(t, "endZoneHours")*3600)
+					d := vgen.Midnight(now).AddDate(0, 0, rapid.IntRange(-2, 1).Draw(t, "eastEndDay"))
+					end = time.Date(d.Year(), d.Month(), d.Day(), 0, 0, 0, 0, z)
+					vstats.Label("endRecordedEastOfUTC")
+				}
+				if w := weeks[end.Format("2006-01-02")]; w != nil && (w.built || !w.end.Equal(end)) {
+					// the week already has a report (adding files to it is C07's subject), or its files record
+					// another end instant under the same date (one week name, two expiry instants: not modelled here)
+					continue
 				}
 				span := rapid.IntRange(1, 7).Draw(t, "spanDays")
 				begin := end.AddDate(0, 0, -span)
